@@ -92,7 +92,10 @@ def long_file(rng):
     for i, nm in enumerate(names):
         if rng.random() < 0.03:
             # displacement parameters below the written precision of five decimals
-            u = ['0.05000', '0.000004', '0.000003', '0.000004', '-0.000004', '0.000004']
+            u = ['0.05000', rng.choice(['0.000004', '0.000002'])] + [rng.choice(['0.000004', '-0.000004', '0.000003', '0.000002', '0.000006', '0.0', '0.000012'])
+                                                                      for _ in range(4)]
+            if rng.random() < 0.3:
+                u[2:] = ['0.000004'] * 4
         elif rng.random() < 0.4:
             u = ['%.5f' % rng.uniform(0.01, 0.09) for _ in range(3)] + ['%.5f' % rng.uniform(-0.01, 0.01) for _ in range(3)]
         else:
